@@ -1,4 +1,5 @@
 import MorfuseModel.Sched.Snapshot
+import MorfuseModel.Sched.MachineHostSL
 /-!
 # C09 — save, reset, load resumes scripts exactly where an uninterrupted run would be
 
@@ -73,5 +74,85 @@ def demoState : State :=
 example : load demoState (save demoState) = demoState :=
   C09_roundtrip demoState demoState rfl rfl rfl (by intro e he; simp [demoState] at he; rcases he with rfl | rfl <;> rfl)
     rfl rfl rfl rfl rfl rfl rfl rfl rfl rfl
+
+/-! ## Machine level: `save` / `load` among the host operations
+
+`ReachableSL s k` (`Sched/MachineHostSL.lean`): machine state `s` and held snapshot `k` after any list of the
+driver's commands — compile, host calls, `advance`, `execute`, `step`, `reset-director`, `reset`, reading the
+output, **`save`, `load`** — where a `save` is taken in a state that has not run out of fuel and a `load` happens
+when the implied `Reset()` does not run out of fuel and the *objects* that are wait sources in the snapshot still
+exist (the host owns its objects; the archive does not contain them).  Programs of class `ProgOK`. -/
+
+/-- **Loading keeps every invariant, machine level.**  After `load` (= `Reset()` + reading the snapshot back)
+    the loaded machine state satisfies all host-level invariants again: the machine invariant (timer
+    consistency, mirror of the listener tables, no lost wake-up), no current thread and an empty execution
+    stack, a sound dirty flag, the instance-list invariant, every thread complete and idle — although it is
+    assembled from two histories (threads, instances, timer, tables from the snapshot; program, clock, objects,
+    result slots from the present context). -/
+theorem C09_machine_load_preserves_invariants {s : State} {k : Snap} (h : ReachableSL s (some k))
+    (ho : (killAllInsts s).outOfFuel = false)
+    (hobj : ∀ o n x, x ∈ Tbl.getD k.notify (o, n) → o < 100 → s.objAlive o = true) :
+    (load (killAllInsts s) k).outOfFuel = false ∧ HInv3 (load (killAllInsts s) k) := by
+  have h' := (reachableSL_hinv3 (ReachableSL.load h ho hobj)).1
+  exact ⟨rfl, h'.get rfl⟩
+
+/-- **Every state the driver can reach, all commands included**, has run out of fuel or satisfies the
+    machine-level invariant (`reachable_inv_partial` without the restriction to histories without
+    `save`/`load`). -/
+theorem C09_machine_reachable_inv {s : State} {k : Option Snap} (h : ReachableSL s k) :
+    s.outOfFuel = true ∨ (Inv [] [] none s ∧ J [] s ∧ W [] s ∧ s.cur = none ∧ s.depth = 0) :=
+  (reachableSL_hinv3 h).1.map (fun hi => ⟨hi.h2.h.inv, hi.h2.j, hi.w, hi.h2.h.cur, hi.h2.h.depth⟩)
+
+/-- **What is loaded is what was saved, machine level**: the scheduler part of the loaded state is the
+    snapshot's (threads with the host link dropped), the host part is the present context's; and a snapshot
+    held by the host was taken in a state with all invariants, at a boundary between host operations. -/
+theorem C09_machine_loaded_is_saved {s : State} {k : Snap} (h : ReachableSL s (some k)) :
+    (∃ s0, HInv3 s0 ∧ s0.cur = none ∧ s0.depth = 0 ∧ k = save s0) ∧
+    (load (killAllInsts s) k).threads = k.threads.map (fun e => (e.1, { e.2 with call := none })) ∧
+    (load (killAllInsts s) k).insts = k.insts ∧ (load (killAllInsts s) k).timer = k.timer ∧
+    (load (killAllInsts s) k).notify = k.notify ∧ (load (killAllInsts s) k).waitFor = k.waitFor ∧
+    (load (killAllInsts s) k).prog = s.prog ∧ (load (killAllInsts s) k).clock = s.clock := by
+  obtain ⟨s0, h0, hk⟩ := (reachableSL_hinv3 h).2
+  refine ⟨⟨s0, h0, h0.h2.h.cur, h0.h2.h.depth, hk⟩, rfl, rfl, rfl, rfl, rfl, ?_, ?_⟩
+  · exact (killAllInsts_pres s).prog
+  · have hc := (killAllInsts_hr s).ht.c3
+    simp only [Prod.mk.injEq] at hc
+    exact hc.1
+
+/-! ### non-vacuity: save with a timed and a waiting thread, run on, load -/
+
+def demoSL : List HostOp :=
+  [.script [[.thread 1, .wait 5, .mark 1], [.waittill 50 [7], .mark 2]] [0, 0], .call 0 [], .takeOut]
+
+theorem demoSL_reachable : ReachableSL (runOps (runOps {} demoSL) [.step 5, .takeOut]) (some (save (runOps {} demoSL))) := by
+  have h0 : ReachableSL (runOps {} demoSL) none :=
+    Reachable.toSL ((reachable_iff _).2 ⟨demoSL, by decide, rfl⟩)
+  have h1 := ReachableSL.save h0 (by decide +kernel)
+  have h2 := ReachableSL.step (.step 5) h1 trivial
+  exact ReachableSL.step .takeOut h2 trivial
+
+/-- at clock 5 the timed thread has run (`m1`) and is gone; loading brings it back, timing, with its timer
+    element; the side conditions of `load` hold -/
+example :
+    (runOps (runOps {} demoSL) [.step 5, .takeOut]).timer.elems = [] ∧
+    (killAllInsts (runOps (runOps {} demoSL) [.step 5, .takeOut])).outOfFuel = false ∧
+    (load (killAllInsts (runOps (runOps {} demoSL) [.step 5, .takeOut])) (save (runOps {} demoSL))).timer.elems = [(100, 5)] ∧
+    (load (killAllInsts (runOps (runOps {} demoSL) [.step 5, .takeOut])) (save (runOps {} demoSL))).notify = [((50, 7), [101])] := by
+  decide +kernel
+
+example : HInv3 (load (killAllInsts (runOps (runOps {} demoSL) [.step 5, .takeOut])) (save (runOps {} demoSL))) :=
+  (C09_machine_load_preserves_invariants demoSL_reachable (by decide +kernel)
+    (fun o n x hx _ => by
+      have hn : (save (runOps {} demoSL)).notify = [((50, 7), [101])] := by decide +kernel
+      rw [hn] at hx
+      have : o = 50 := by
+        by_cases h50 : o = 50
+        · exact h50
+        · exfalso
+          have hb : ((50, 7) == (o, n)) = false := by
+            simp only [beq_eq_false_iff_ne, ne_eq, Prod.mk.injEq, not_and]
+            intro e; exact absurd e.symm h50
+          simp [Tbl.getD, Tbl.find, List.find?, hb] at hx
+      subst this; rfl)).2
 
 end Morfuse.Sched
